@@ -6,6 +6,8 @@
 //   inv / sminv  : detail::inverse (junk-filled scratch) / math::inverse(static_matrix<Q,b,b>)
 //   sm / smident : static_matrix arithmetic / algebraic identities evaluated on the implementation
 //   qr / qrsolve : detail::QR<Q> (pseudo-root: compared digit for digit with the model)
+//   qrseq / qrseqf : sequences of compute / factorize / solve calls of different shapes and storage orders on ONE
+//                  QR object / on a fresh object per call (model: coq/QrObj.v; also d.qrseq / d.qrseqf)
 //   d.qr / d.qrsolve / d.inv / d.sky : double instantiation, outputs printed as exact rationals
 //                  (residual oracles are evaluated by tools/props/C16.py in exact arithmetic)
 // assert() inside detail::inverse is turned into the outcome "EXC assert" (longjmp out of
@@ -15,6 +17,8 @@
 #include <cstdlib>
 #include <cstdio>
 #include <unistd.h>
+#include <deque>
+#include <memory>
 #include "vq_io.hpp"
 #include <amgcl/backend/builtin.hpp>
 #include <amgcl/adapter/crs_tuple.hpp>
@@ -264,6 +268,75 @@ template <class V> static std::string qr2_run(Tok &t) {
     return show(Qm) + " " + show(Rm) + " " + show(A);
 }
 
+// ---- QR: a sequence of compute / factorize / solve calls on ONE object (model: coq/QrObj.v) ------------------
+//   qrseq  <ncalls> <call>*   one QR<V> object for the whole sequence
+//   qrseqf <ncalls> <call>*   a fresh object for every call
+// call ::= F <ord> <m> <n> <A> | C <ord> <m> <n> <A> | W <ord> <m> <n> <A> | S <ord> <m> <n> <A> <b> | T <b>
+//   W: the caller's own preparation of a wide system (m < n): adjoint in place + compute(n, m, col_stride, row_stride, A)
+//   T: solve(..., computed = true) with the shape / order / array of the last call that was not a T; on a fresh
+//      object that call is repeated first.  All arrays stay alive until the end of the sequence (r points into them).
+template <class V> struct QrSeq {
+    typedef amgcl::detail::QR<V> QRt;
+    struct Est { std::string k; long ord, m, n; std::vector<V> A0, b0; };
+    std::unique_ptr<QRt> qr;
+    std::deque< std::vector<V> > arrays;
+    QrSeq() : qr(new QRt()) {}
+    static amgcl::detail::storage_order so(long ord) { return ord ? amgcl::detail::col_major : amgcl::detail::row_major; }
+    // one call that is not a T, on a copy of the input array that is kept alive
+    std::string establish(const Est &e) {
+        arrays.push_back(e.A0); std::vector<V> &A = arrays.back();
+        int m = (int)e.m, n = (int)e.n;
+        if (e.k == "F") {
+            qr->factorize(m, n, A.data(), so(e.ord));
+            long k = std::min(e.m, e.n);
+            std::vector<V> Qm(e.m * e.n), Rm(k * e.n);
+            for (long i = 0; i < e.m; ++i) for (long j = 0; j < e.n; ++j) Qm[i * e.n + j] = qr->Q((int)i, (int)j);
+            for (long i = 0; i < k; ++i) for (long j = 0; j < e.n; ++j) Rm[i * e.n + j] = qr->R((int)i, (int)j);
+            return show(Qm) + " " + show(Rm) + " " + show(A);
+        }
+        if (e.k == "C") { qr->compute(m, n, A.data(), so(e.ord)); return show(A); }
+        if (e.k == "W") {
+            int rs = e.ord ? 1 : n, cs = e.ord ? m : 1;
+            for (size_t i = 0; i < A.size(); ++i) A[i] = amgcl::math::adjoint(A[i]);
+            qr->compute(n, m, cs, rs, A.data());
+            return show(A);
+        }
+        if (e.k == "S") {
+            std::vector<V> x(e.n, V(55));
+            qr->solve(m, n, A.data(), e.b0.data(), x.data(), so(e.ord));
+            return show(x) + " " + show(A);
+        }
+        throw std::runtime_error("bad call kind");
+    }
+    std::string run(Tok &t, bool fresh) {
+        long nc = t.i();
+        Est est; bool have = false;
+        std::string out;
+        for (long c = 0; c < nc; ++c) {
+            std::string k = t.s(), o;
+            if (k == "T") {
+                std::vector<V> b = t.vecT<V>();
+                if (!have) throw std::runtime_error("T without an establishing call");
+                if (fresh) { qr.reset(new QRt()); establish(est); }
+                std::vector<V> &A = arrays.back();
+                std::vector<V> x(est.n, V(55));
+                qr->solve((int)est.m, (int)est.n, A.data(), b.data(), x.data(), so(est.ord), true);
+                o = show(x);
+            } else {
+                est.k = k; est.ord = t.i(); est.m = t.i(); est.n = t.i(); est.A0 = t.vecT<V>();
+                est.b0 = (k == "S") ? t.vecT<V>() : std::vector<V>();
+                have = true;
+                if (fresh) qr.reset(new QRt());
+                o = establish(est);
+            }
+            out += (c ? " ; " : "") + o;
+        }
+        return out;
+    }
+};
+template <class V> static std::string qrseq_run(Tok &t) { QrSeq<V> s; return s.run(t, false); }
+template <class V> static std::string qrseqf_run(Tok &t) { QrSeq<V> s; return s.run(t, true); }
+
 // ---- double instantiations (oracles in python) --------------------------------------------------
 static std::string d_inv(Tok &t) {
     long n = t.i(); std::vector<double> A = t.vecT<double>(); std::vector<double> junk = t.vecT<double>();
@@ -279,6 +352,7 @@ int main() {
     r["qrsolvec"] = qrsolvec_run<Q>; r["d.qrsolvec"] = qrsolvec_run<double>;
     r["qr"] = qr_run<Q>; r["qrsolve"] = qrsolve_run<Q>; r["qr2"] = qr2_run<Q>;
     r["d.qr"] = qr_run<double>; r["d.qrsolve"] = qrsolve_run<double>; r["d.qr2"] = qr2_run<double>;
+    r["qrseq"] = qrseq_run<Q>; r["qrseqf"] = qrseqf_run<Q>; r["d.qrseq"] = qrseq_run<double>; r["d.qrseqf"] = qrseqf_run<double>;
     r["d.inv"] = d_inv; r["d.sky"] = d_sky;
     return vq::driver_main();
 }
